@@ -276,13 +276,14 @@ class SweepCtx(LogCtx):
                 break
             hist.append(op)
             scratch.step(op)
-        tail = []
-        for _ in range(6):
-            op = scratch.choose(rng)
-            if op is None:
-                break
-            tail.append(op)
-            scratch.step(op)
+        # continuation after the crash + restart: a script that produces records from a fresh boot
+        # whatever the history was (connect -> OPEN sent/received -> UPDATEs -> connection lost)
+        cfg = self.cfg
+        tail = [["fire", 0], ["conn_ok", 0], ["send", 0, cfg["peer_open"], []],
+                ["send", 0, rp.encode_keepalive().hex(), []]]
+        for _ in range(rng.randrange(1, 4)):
+            tail.append(["send", 0, base.gen_update(rng, cfg, True).hex(), []])
+        tail.append(["pclose", 0, True])
         return ["sweep", hist, tail]
 
     def step(self, op):
